@@ -12,7 +12,16 @@ import (
 	"fmt"
 	"os"
 	"runtime/debug"
+	"strconv"
+	"time"
 )
+
+func caseTimeout() time.Duration {
+	if v, err := strconv.Atoi(os.Getenv("PVH_CASE_TIMEOUT_S")); err == nil && v > 0 {
+		return time.Duration(v) * time.Second
+	}
+	return 120 * time.Second
+}
 
 type Case = map[string]interface{}
 
@@ -92,7 +101,16 @@ func main() {
 			if !ok {
 				impl = J{"class": "harness-error", "msg": "no runner for kind " + str(c, "kind")}
 			} else {
-				impl = safeRun(rf, c)
+				// a case that does not come back (a hang in the code under test) must not stall the whole check
+				done := make(chan interface{}, 1)
+				go func() { done <- safeRun(rf, c) }()
+				select {
+				case impl = <-done:
+				case <-time.After(caseTimeout()):
+					enc.Encode(J{"id": c["id"], "impl": J{"class": "timeout", "msg": "no answer within the per-case time limit"}})
+					w.Flush()
+					os.Exit(3)
+				}
 			}
 			enc.Encode(J{"id": c["id"], "impl": impl})
 			w.Flush()
